@@ -110,6 +110,11 @@ CHECKS = {
         technique="TLA+ RV32IM instruction-level model (RV.tla) executed by TLC on the parsed assembly emitted by the real pipeline, next to the source under Machine.tla, on the same inputs; calling-convention clauses (results in a0/a1, callee-saved registers and sp restored)",
         text="Generated i32 programs (arith incl. division, shifts and boundary constants, all cmpi predicates observed through index casts, scf.for with iter_args and dynamic bounds, up to >= 10 live values) are compiled by the documented RISC-V pipeline and printed as assembly; TLC runs source and instructions on boundary/random inputs. RISC-V snippets (random, plus the grid of every R-/I-type op on boundary constants and immediates) are printed before and after canonicalize alone and both executed under RV.tla.",
         note="Trusted: RV.tla / Machine.tla; the assembly parser (harness/drivers/c22.py). Integer only: floating point (f32/f64 constants, fcvt, fadd..) is not modelled, so float lowering defects are out of reach. Programs the pipeline refuses (unsupported ops, out of registers, si12 immediates rejected by canonicalize) are outside the property and counted in the evidence. One defect repaired (cmpi predicate table)."),
+    "C23": dict(
+        category="exploration", design_ref="DESIGN.md §4 C23",
+        technique="TLA+ semantics of the llvm dialect's integer / branch / stack-slot ops (Machine.tla LLVMEval, poison = no obligation) executed by TLC to judge the results of natively executed code produced by the real backend (LLVM verifier + MCJIT via llvmlite)",
+        text="Generated llvm-dialect integer functions (binary ops with nsw/nuw/exact/disjoint flags, ten icmp predicates, zext/sext/trunc with nneg/nsw/nuw, select, alloca/store/load, diamonds with block arguments incl. both edges into one block, counted loops with loop-carried block arguments; i1-i64) are translated by xdsl.backend.llvm, parsed and verified by LLVM (rejection = violation), JIT-compiled and called on boundary/random arguments in a forked child; TLC runs the function under Machine.tla and compares every defined result; a corrupted-result negative control must be rejected.",
+        note="Trusted: LLVMEval in Machine.tla (built on BV.tla, self-checked in BVCheck.tla); llvmlite's LLVM; the host CPU. Floats, vectors, calls, GEP, globals are not generated. One open finding (cond_br with both edges to one block)."),
     "C19": dict(
         category="exploration", design_ref="DESIGN.md §3.7, §4 C19",
         technique="TLA+ register-file execution of allocated blocks (RegAlloc.tla: the register file remembers which value each register holds) evaluated by TLC on the assignments produced by the real allocators",
